@@ -50,11 +50,15 @@ SCRIPTS = {
     'burst_cdisc': (2, [('adv', 1), ('connect', 'x', 0, 1), ('sendq', 'x', 'c', 1), ('sendq', 'x', 'c', 2), ('sendq?', 'x', 'p', 3), ('sendq', 'x', 'c', 4), ('disc', 'x', 'c')]),
     'burst_pdisc': (2, [('adv', 1), ('connect', 'x', 0, 1), ('sendq', 'x', 'p', 1), ('sendq?', 'x', 'c', 2), ('sendq', 'x', 'p', 3), ('disc', 'x', 'p')]),
     'burst_two_links': (3, [('adv', 1), ('adv', 2), ('connect', 'x', 0, 1), ('connect', 'y', 0, 2), ('sendq', 'x', 'c', 1), ('sendq', 'y', 'c', 2), ('sendq', 'x', 'c', 3), ('sendq?', 'y', 'p', 4), ('disc', 'x', 'c'), ('sendq', 'y', 'c', 5), ('disc', 'y', 'c')]),
+    # an application that sends from its 'connection' event listener, the first moment the connection exists for it
+    'greet_c': (2, [('greet', 'c'), ('adv', 1), ('connect', 'x', 0, 1), ('send', 'x', 'c', 1), ('send', 'x', 'p', 2), ('disc', 'x', 'c')]),
+    'greet_p': (2, [('greet', 'p'), ('adv', 1), ('connect', 'x', 0, 1), ('send', 'x', 'p', 1), ('send', 'x', 'c', 2), ('disc', 'x', 'p')]),
+    'greet_both': (2, [('greet', 'c'), ('greet', 'p'), ('adv', 1), ('connect', 'x', 0, 1), ('send', 'x', 'c', 1), ('send', 'x', 'p', 2), ('disc', 'x', 'c')]),
     'dual_mode': (2, [('adv', 1), ('connect', 'x', 0, 1), ('connect_cl', 'y', 0, 1), ('send', 'x', 'c', 1), ('send', 'y', 'c', 2), ('send', 'y', 'p', 3), ('send', 'x', 'p', 4), ('disc', 'x', 'c'), ('send', 'y', 'c', 5), ('send', 'y', 'p', 6), ('disc', 'y', 'p')]),
     'dual_mode_rev': (2, [('connect_cl', 'y', 0, 1), ('adv', 1), ('connect', 'x', 0, 1), ('send', 'y', 'p', 1), ('send', 'x', 'p', 2), ('send', 'x', 'c', 3), ('send', 'y', 'c', 4), ('disc', 'y', 'c'), ('send', 'x', 'c', 5), ('send', 'x', 'p', 6), ('disc', 'x', 'p')]),
 }
 DUAL_SCRIPTS = ('dual_mode', 'dual_mode_rev')
-CLASSIC_SCRIPTS = ['pair', 'pair_pdisc', 'reconnect', 'fan_out', 'fan_in', 'chain', 'handle_reuse', 'burst_cdisc', 'burst_pdisc', 'burst_two_links']
+CLASSIC_SCRIPTS = ['pair', 'pair_pdisc', 'reconnect', 'fan_out', 'fan_in', 'chain', 'handle_reuse', 'burst_cdisc', 'burst_pdisc', 'burst_two_links', 'greet_c', 'greet_p', 'greet_both']
 
 
 def payload(tag, name):
@@ -65,6 +69,8 @@ class Obs:
     def __init__(self, w):
         self.w = w
         self.events = [[] for _ in w.devices]  # per device
+        self.greet = set()  # roles ('c' / 'p') whose 'connection' listener sends a PDU at once
+        self.greeted = []  # (device, handle, role, data)
         for i, d in enumerate(w.devices):
             d.on('connection', lambda c, i=i: self._on_conn(i, c))
             d.l2cap_channel_manager.register_fixed_channel(TEST_CID, lambda h, pdu, i=i: self.events[i].append(('rx', h, bytes(pdu))))
@@ -76,6 +82,11 @@ class Obs:
         if not hasattr(self, 'conns'):
             self.conns = {}
         self.conns.setdefault(i, []).append(c)
+        role = 'c' if int(c.role) == 0 else 'p'
+        if role in self.greet:
+            data = payload(9 if role == 'c' else 10, 'g')
+            self.greeted.append((i, c.handle, role, data))
+            self.w.devices[i].send_l2cap_pdu(c.handle, TEST_CID, data)
 
 
 def adv_address(w, cfg, dev):
@@ -145,7 +156,10 @@ def run_script(cfg, script_name, sched=None):
                 bad('no_peer_event', {'script': script_name}, f'{script_name}: device {peripheral} (owner of {target}) reported no connection for the link made by device {central}')
             conns[name] = {'c': central, 'p': peripheral, 'cconn': cconn, 'pconn': pconn, 'alive': True}
             if pconn is not None:
-                if bytes(cconn.peer_address) != bytes(pconn.self_address) or bytes(cconn.self_address) != bytes(pconn.peer_address):
+                # an address is its six bytes AND its kind (public / random): the devices of this world use the same six
+                # bytes for their public and their random address, so only the kind tells which own-address was reported
+                same = lambda a, b: bytes(a) == bytes(b) and bool(a.is_public) == bool(b.is_public)
+                if not same(cconn.peer_address, pconn.self_address) or not same(cconn.self_address, pconn.peer_address):
                     bad(
                         'address_mismatch',
                         {'script': script_name},
@@ -162,6 +176,9 @@ def run_script(cfg, script_name, sched=None):
         try:
             for op in ops:
                 kind = op[0]
+                if kind == 'greet':
+                    obs.greet.add(op[1])
+                    continue
                 if kind == 'adv':
                     if classic:
                         continue
@@ -276,6 +293,11 @@ def run_script(cfg, script_name, sched=None):
         expected_rx = [[] for _ in range(n)]
         optional = set()
         order_per_dev = []
+        for dev, handle, role, data in obs.greeted:  # single-connection scripts: the greeting is the first PDU of the link
+            for k in conns.values():
+                if k[role] == dev and k['pconn'] is not None and (k['cconn'] if role == 'c' else k['pconn']).handle == handle:
+                    rcv = 'p' if role == 'c' else 'c'
+                    expected_rx[k[rcv]].append(((k['pconn'] if rcv == 'p' else k['cconn']).handle, data))
         for op in ops:
             if op[0] in ('send', 'sendq', 'sendq?') and op[1] in conns and conns[op[1]]['pconn'] is not None:
                 k = conns[op[1]]
@@ -388,7 +410,7 @@ def configs(quick):
                             # extended advertising sets that advertise with a random address of their own
                             out.append(({'transport': 'le', 'init_own': init_own, 'adv_own': [adv_own] * n, 'ext': list(ext), 'order': list(order), 'set_addr': True}, script))
     # hosts wired to their controllers synchronously (no HCI transport delay at all): commands take effect at once
-    for script in ('pair', 'pair_pdisc', 'reconnect', 'fan_out', 'burst_cdisc', 'burst_pdisc', 'burst_two_links') + (() if quick else ('fan_in', 'chain', 'handle_reuse')):
+    for script in ('pair', 'pair_pdisc', 'reconnect', 'fan_out', 'burst_cdisc', 'burst_pdisc', 'burst_two_links', 'greet_c', 'greet_p', 'greet_both') + (() if quick else ('fan_in', 'chain', 'handle_reuse')):
         n = SCRIPTS[script][0]
         for init_own in ('random', 'public'):
             for adv_own in ('random', 'public'):
@@ -459,7 +481,7 @@ def run(ctx: core.Context) -> int:
     if not only or 'sched' in only:
         st = ctx.sub('schedules')
         reps = []
-        for script in ('pair', 'fan_out', 'fan_in', 'chain_race', 'incoming_while_pending', 'burst_cdisc', 'burst_pdisc') if quick else list(SCRIPTS):
+        for script in ('pair', 'fan_out', 'fan_in', 'chain_race', 'incoming_while_pending', 'burst_cdisc', 'burst_pdisc', 'greet_both') if quick else list(SCRIPTS):
             n = SCRIPTS[script][0]
             reps.append(({'transport': 'le', 'init_own': 'random', 'adv_own': ['random'] * n, 'ext': [False] * n, 'order': list(range(n))}, script))
             if not quick:
@@ -474,7 +496,7 @@ def run(ctx: core.Context) -> int:
         ctx,
         LEVEL,
         rule=(
-            'scripts_d0: 12 scripts (incl. two dual-mode LE+BR/EDR scripts and extended advertising sets with an address of their own) (connect/data/disconnect orders over 2-3 devices incl. a device that is central and peripheral at once '
+            'scripts_d0: 15 scripts (incl. applications that send from their connection-event listener, two dual-mode LE+BR/EDR scripts and extended advertising sets with an address of their own) (connect/data/disconnect orders over 2-3 devices incl. a device that is central and peripheral at once '
             'with racing connects) x own-address type of initiator and advertisers x legacy/extended advertising x LE/BR-EDR x controller '
             'iteration orders, default schedule; scanning: passive/active scanner x advertisers x payload lengths; schedules: representative '
             'configurations under all order-preserving delays up to the deviation bound. distinct = distinct (configuration, script) or '
